@@ -98,7 +98,10 @@ def comments(text):
     return out
 
 
-def mk_config():
+def mk_config(narrow=False):
+    if narrow:       # the options that decide argument-list treatment; the rest at their defaults
+        return MF.FormatterConfig(max_line_length=sym_int('max_line_length', 0, 40), no_single_comma_function=sym_bool('no_single_comma_function'),
+                                  simplify_string_literals=sym_bool('simplify_string_literals'), sort_files=sym_bool('sort_files'), use_editor_config=False)
     return MF.FormatterConfig(
         max_line_length=sym_int('max_line_length', 0, 40),
         indent_by=' ' * (1 + choose(3, 'indent')),
@@ -123,8 +126,8 @@ def classify(label, inputs):
     return label
 
 
-def run_checks(src):
-    cfg = mk_config()
+def run_checks(src, narrow=False):
+    cfg = mk_config(narrow)
     f = mk_formatter(cfg)
     try:
         a_ast = mp.Parser(src, 'f').parse()
@@ -163,6 +166,7 @@ CORPUS = [
     "x = f(a,b,)\ny = g(k : v,)\n", "x = [\n  'a',\n  'b', # c\n]\n", "x = a.b().c().d(1, 2)\n", "x = -1\ny = not true\nz = a[0]\n",
     "project('p', 'c', version : '1.0', default_options : ['a=b', 'c=d'])\n", "x = f(a, [1, 2], b)\n", "#only a comment\n",
     "x = files(['b.c', 'a.c'])\n", "x = files('z.c', ['b.c', 'a.c'])\n", "foo('a',)\n", "x = files(\n  'b.c', # second\n  'a.c', # first\n)\n",
+    "x = files(f'b.c', 'a.c')\n", "x = files(f'b@0@.c', '''a.c''', 'c.c')\n", "x = files(\n  'b.c',\n  'a.c' # last\n)\n", "x = (a and # why\n  b)\n",
 ]
 
 
@@ -185,6 +189,34 @@ def ob_template(k, n):
     return h
 
 
+TQ = "'" * 3
+
+
+def ob_shapes(fn_name, nmax):
+    """grammar-enumerated argument lists: 2-3 arguments, each one of {plain, f-string, triple-quoted, f-string with substitution, nested array}, names in
+    descending order (so sorting matters), optional trailing comma, optional comment after one argument, one-line or one-per-line layout"""
+    def h():
+        n = 2 + (choose(2, 'nargs') if nmax > 2 else 0)
+        names = ['c', 'b', 'a'][:n] if n == 3 else ['b', 'a']
+        args = []
+        for i, nm in enumerate(names):
+            k = choose(5, 'kind%d' % i)
+            args.append(["'%s.c'" % nm, "f'%s.c'" % nm, TQ + nm + '.c' + TQ, "f'%s@0@.c'" % nm, "['%s2.c', '%s1.c']" % (nm, nm)][k])
+        trailing = choose(2, 'trailing_comma') == 1
+        multi = choose(2, 'multiline') == 1
+        cpos = choose(n + 1, 'comment_after')        # n = no comment
+        if cpos < n and not multi: multi = True      # a comment needs a line end
+        if multi:
+            text = 'x = %s(\n' % fn_name
+            for i, a in enumerate(args):
+                text += '  ' + a + (',' if i < n - 1 or trailing else '') + (' # c%d' % i if i == cpos else '') + '\n'
+            text += ')\n'
+        else:
+            text = 'x = %s(' % fn_name + ', '.join(args) + (',' if trailing else '') + ')\n'
+        run_checks(text, narrow=True)
+    return h
+
+
 def obligations(tier):
     q = tier == 'quick'
     out = []
@@ -193,6 +225,9 @@ def obligations(tier):
         if 'files([' in CORPUS[i] and '#' in CORPUS[i]:
             cl = (lambda label, inputs: 'comments preserved: count [files() with a comment after the array]' if label == 'comments preserved: count' else classify(label, inputs))
         out.append(Obligation('program[%d]' % i, ob_corpus(i), dict(program=CORPUS[i], configuration='fully symbolic'), labels=('done',), max_paths=3000000, classify=cl))
+    for fname in ('files', 'f'):
+        out.append(Obligation('shapes[%s]' % fname, ob_shapes(fname, 3 if (fname == 'files' or not q) else 2), dict(function=fname, arguments='2-3 of {plain, f-string, triple-quoted, f-string with @0@, nested array}', layout='one line | one per line',
+                              trailing_comma='both', comment='after any argument or none', configuration='max_line_length, sort_files, simplify_string_literals, no_single_comma_function symbolic; the rest default'), labels=('done',), max_paths=5000000, classify=classify))
     for k in range(len(TEMPLATES)):
         for n in ((1, 2) if q else (1, 2, 3)):
             out.append(Obligation('template[%d,%d]' % (k, n), ob_template(k, n), dict(template=TEMPLATES[k]('<BODY>'), body_len=n, alphabet=SB, configuration='fully symbolic'),
